@@ -281,6 +281,25 @@ example : (getRun ⟨none, true, .resync⟩ [t!"verif/n"] {}
       getEvent (wfNote t!"verif/n" [(t!"k", .int 7)]) 71680)).notes = [(t!"verif/n", .obj [(t!"k", .int 7)])] :=
   C07_resync_get ⟨none, true, .resync⟩ rfl [t!"verif/n"] {} rfl _ t!"verif/n" _ (by decide) 71680
 
+/-- the GET-stream reader keeps no event type: an `event:` field — whatever it names, indented or not, followed by data or
+    not — changes nothing, so a typed event without data (a keep-alive `event: ping` + blank line) cannot leak into the
+    next frame -/
+theorem C07_get_event_field_inert (F : Facts) (hF : F.getLimit = none) (H : List Text) (st : GetSt) (name : Text) (ind : Bool)
+    (n : Nat) : getStep F H st ⟨.event name, ind, n⟩ = st := by
+  simp [getStep, hF, tooLong]
+
+/-- keep-alive events without data, `id:` / `retry:` fields alone, an event of another type WITH data, runs of blank lines:
+    the notification behind them is delivered (instance of `C07_resync_get`; the event of type `ping` that carries a
+    notification is delivered as well — the reader does not look at the type) -/
+example : (getRun ⟨none, true, .resync⟩ [t!"verif/n"] {}
+    ([eventLine t!"ping", blankLine, ⟨.id, false, 6⟩, ⟨.other, false, 11⟩, blankLine, blankLine,
+      eventLine t!"ping", dataLine (wfNote t!"verif/n" [(t!"k", .int 1)]) 60, blankLine, eventLine t!"heartbeat", blankLine] ++
+      getEvent (wfNote t!"verif/n" [(t!"k", .int 2)]) 60)).notes =
+    [(t!"verif/n", .obj [(t!"k", .int 1)]), (t!"verif/n", .obj [(t!"k", .int 2)])] := by
+  rw [C07_resync_get ⟨none, true, .resync⟩ rfl [t!"verif/n"] {} rfl _ t!"verif/n" _ (by decide) 60]
+  simp [getRun, getStep, tooLong, eventLine, blankLine, dataLine, payloadOf, getDispatch, wfNote, msgType, lookupStr?, lookup, hasKey,
+    notifDecodes, strOrNull, objOrNull, methodOf, paramsOf, extractString]
+
 /-! ## pending tables -/
 
 private theorem deliver_not_sel (t : Table) (sel : Nat → Bool) (o : CallOut) (c : Nat) (h : sel c = false) :
@@ -405,6 +424,22 @@ theorem C07_total_legacy_counterexample (F : Facts) (hF : F.latchGuarded = false
       ([eventLine t!"endpoint", ⟨.data ⟨true, none, true⟩, false, 14⟩, blankLine] ++
        [eventLine t!"endpoint", ⟨.data ⟨true, none, true⟩, false, 14⟩, blankLine])).halt = some .panic := by
   simp [legRun, legStep, eventLine, blankLine, legDispatch, legEndpoint, hF]
+
+/-- a server request that arrives while no endpoint is known (before the endpoint event, or on a stream that never announces
+    a usable one) is dropped: nothing is sent, nothing panics, the state is unchanged (`sendResponseMessage`'s
+    `t.endpoint == nil` guard) -/
+theorem C07_request_before_endpoint (st : LegSt) (p : Payload) (m : Obj) (hp : p.json = some (.obj m))
+    (hid : hasKey m t!"id" = true) (hm : hasKey m t!"method" = true) (hl : st.latch = false) : legMessage st p = st := by
+  simp [legMessage, hp, hid, hm, hl]
+
+/-- a `roots/list` request, then the endpoint event, then the same request again: the reader lives, the latch closes, only
+    the second request is answered -/
+example : let req := Json.obj [(t!"jsonrpc", .str t!"2.0"), (t!"id", .int 501), (t!"method", .str t!"roots/list")]
+    let st := legRun ⟨none, true, .resync⟩ { tbl := Table.init [1] }
+      (legEvent req 50 ++ [eventLine t!"endpoint", ⟨.data ⟨true, none, true⟩, false, 14⟩, blankLine] ++ legEvent req 50)
+    st.halt = none ∧ st.latch = true ∧ st.answers = [(.int 501, true)] := by
+  simp [legRun, legStep, legEvent, eventLine, blankLine, dataLine, payloadOf, legDispatch, legEndpoint, legMessage, hasKey, lookup,
+    reqDecodes, strOrNull, idOf, isRoots, methodOf, extractString]
 
 /-- a missing endpoint event is not a crash either: the latch simply stays open (the handshake then ends with the caller's
     deadline) -/
